@@ -22,7 +22,9 @@ Record case := {
   k_expr : expr;         k_res : obs;
   k_np_kind : kind;      k_np : list val;       (* the same expression evaluated by NumPy on dense arrays (flat genome) *)
   k_sum : val;           k_np_sum : val;        (* np.sum(result) ; np.sum(dense) *)
-  k_edges : list val;    k_hist : list Z;  k_np_hist : list Z   (* np.histogram(result, bins=edges)[0] ; same on dense *)
+  (* np.histogram in the case's calling convention (positional / keyword / mixed bins, range, explicit edges, default):
+     k_edges, k_np_hist = edges and counts NumPy returns on the dense array; k_obs_edges, k_hist = on the genomic array *)
+  k_edges : list val;    k_obs_edges : list val;    k_hist : list Z;  k_np_hist : list Z
 }.
 
 Definition grec_eqb (a b : grec) : bool :=
@@ -69,6 +71,7 @@ Definition spec_ok (c : case) : bool :=
          (* the property *)
          && view_ok sizes true k d (k_res c)
          && veqb (k_sum c) (vsum d)
+         && vlist_eqb (k_obs_edges c) (k_edges c)
          && zlist_eqb (k_hist c) (spec_hist (k_edges c) d)
      end.
 
@@ -110,6 +113,8 @@ Definition model_ok (c : case) : bool :=
          | Some (k, r) =>
              obs_matches sizes (Some (k, r)) (k_res c)
              && veqb (k_sum c) (model_sum r)
+             (* the bin edges depend on bins / range / min / max of the values only: the run values have the dense min / max *)
+             && vlist_eqb (k_obs_edges c) (k_edges c)
              && zlist_eqb (k_hist c) (model_hist (k_edges c) r)
          end
      end.
